@@ -9,7 +9,8 @@ Templates == <<
   "Title: value\nAuthor: me\n\nbody [%title]", "fn[^f] cite[#c]\n\n[^f]: note\n\n[#c]: cite", "x^sup^ y~sub~", "\"dq\" 'sq' -- --- ...", "<http://auto.link/x>", "two  \nhard\\\nbreaks",
   "{++add++}{--del--}{~~a~>b~~}{>>c<<}{==h==}", "$x+y$ \\\\(z\\\\)", "term\n: definition", "```lang\ncode\n```", "    indented code", "[>ab]: Abbr\n\nab here", "{{TOC}}\n\n# One\n\n## Two [lbl]",
   "<div>html</div>\n\n<!-- c -->", "a &amp; b &#x41; &copy;", "\\*esc\\* \\[b\\]", "[?g]: gloss\n\n[?g]", "- - -\n\n***",
-  "![alt](img.png width=\"50px\" height=2cm)", "Title: value\nAuthor: me", "![i][r] [l][r]\n\n[r]: p.png \"T\" width=40px class=\"c\"", "Key: v\nOther Key: w\n\n# h [%key]" >>
+  "![alt](img.png width=\"50px\" height=2cm)", "Title: value\nAuthor: me", "![i][r] [l][r]\n\n[r]: p.png \"T\" width=40px class=\"c\"", "Key: v\nOther Key: w\n\n# h [%key]",
+  "[a](<http://e.org/c) and ![i](<p.png \"t\")", "[a](<http://e.org/c>) [r]\n\n[r]: <http://e.org/d" >>
 VARIABLE c
 Pick(S) == IF Sim THEN {RandomElement(S)} ELSE S
 Cases == {[t |-> t, p |-> p, cp |-> n, cp2 |-> "", nl |-> nl] : t \in Pick(1 .. Len(Templates)), p \in 0 .. 80, n \in Pick(DOMAIN CPs), nl \in Pick(BOOLEAN)}
